@@ -270,7 +270,7 @@ def _drop_partial_test(op):
         f.writelines(lines[:last])
 
 
-def run_harness(binp, tests, wdir, shards=NCPU, timeout=900, per_test_timeout="180s", env=None, max_hangs=4):
+def run_harness(binp, tests, wdir, shards=NCPU, timeout=3600, per_test_timeout="180s", env=None, max_hangs=4):
     """Run tests through the harness in parallel shards.  Returns a list of
     (tests_of_shard, trace_path).  A dead process is restarted after the test
     that killed it; that test gets a synthetic `panic` event (process death is
@@ -398,7 +398,7 @@ def _locate(r, part):
     raise Inconclusive("cannot map TLC position %s into the trace\n%s" % (l, r.out[-2000:]))
 
 
-def validate_trace(trace_path, invs, wdir, module="SodTrace", dev=(), timeout=900, max_fail=25, heap="3g", second=None, known=()):
+def validate_trace(trace_path, invs, wdir, module="SodTrace", dev=(), timeout=2400, max_fail=25, heap="3g", second=None, known=()):
     """Validate a concatenated trace with TLC (deviations off).  A rejected test is
     re-validated with the listed known deviations enabled: accepted => known finding,
     still rejected => violation.  Validation always resumes after the failing test,
@@ -435,7 +435,7 @@ def validate_trace(trace_path, invs, wdir, module="SodTrace", dev=(), timeout=90
         r = tlc(module, cfg, wdir, workers=1, timeout=timeout, heap=heap, name="%s_%d" % (module, stat["runs"]))
         if r.timeout:
             # a saturated machine: once more with three times the delay before giving up (exit 2, never a verdict)
-            r = tlc(module, cfg, wdir, workers=1, timeout=timeout * 3, heap=heap, name="%s_%d_retry" % (module, stat["runs"]))
+            r = tlc(module, cfg, wdir, workers=1, timeout=timeout * 2, heap=heap, name="%s_%d_retry" % (module, stat["runs"]))
         stat["runs"] += 1
         stat["states"] += r.distinct
         os.remove(fp)
